@@ -41,6 +41,8 @@ pub struct Built {
     /// compressed clusters: (host byte offset, plaintext token base)
     pub comp: Vec<(u64, u64)>,
     pub host_clusters: u64,
+    /// host clusters preallocated behind zero-flagged entries
+    pub prealloc: Vec<u64>,
 }
 
 fn put64(b: &mut [u8], off: usize, v: u64) {
@@ -343,5 +345,9 @@ pub fn build(l: &Layout, rng: &mut Rng) -> Built {
         put64(&mut img, 8, off as u64);
         put32(&mut img, 16, name.len() as u32);
     }
-    Built { bytes: img, content, own, comp, host_clusters: total as u64 }
+    let prealloc: Vec<u64> = (0..ng)
+        .filter(|g| l.states[*g] == GState::ZeroPrealloc && l2_at.contains_key(&(g / l2e)))
+        .map(|g| data_at[&g] as u64)
+        .collect();
+    Built { bytes: img, content, own, comp, host_clusters: total as u64, prealloc }
 }
